@@ -562,7 +562,10 @@ func checkC09(c *Ctx) {
 				if !ok || !r2.is("message", "uid") {
 					return
 				}
-				if lr, ok := loadedField(s2.Val); ok && lr.is("Mailbox", "uidNext") && precedes(s2, st) {
+				// what counts is when uidNext is read, not when the value is stored
+				ldi, _ := s2.Val.(ssa.Instruction)
+				before := precedes(s2, st) || (ldi != nil && ldi.Block() == st.Block() && precedes(ldi, st)) || (ldi != nil && ldi.Block() != st.Block() && ldi.Block().Dominates(st.Block()))
+				if lr, ok := loadedField(s2.Val); ok && lr.is("Mailbox", "uidNext") && before {
 					assigned = true
 					// the read of uidNext belongs to the same critical section as the increment
 					if ld, ok := s2.Val.(ssa.Instruction); ok {
